@@ -132,6 +132,16 @@ theorem run_positions (exp : α → α) (q : Qubit α) (steps : List (Env α × 
 
 end Generic
 
+/-! ### reading the Pauli off the engine calls -/
+
+theorem noiseCalls_pauli_iff (num : Nat) (s : Option Pauli) (P : Pauli) :
+    noiseCalls num (.applied s) = [.pauli P num] ↔ s = some P := by
+  cases s <;> simp [noiseCalls]
+
+theorem noiseCalls_nil_iff (num : Nat) (s : Option Pauli) :
+    noiseCalls num (.applied s) = [] ↔ s = none := by
+  cases s <;> simp [noiseCalls]
+
 /-! ### the decision rule over a linearly ordered commutative ring -/
 
 section Rule
